@@ -170,6 +170,16 @@ func RunCheck(opts RunOpts, t0 time.Time) (*Outcome, error) {
 		keys = append(keys, k)
 	}
 	sort.Strings(keys)
+	// thorough tier: the contracts of the callees are part of the property's proof. They are verified under their own
+	// properties' checks; here the whole callee closure is verified as well (all its tagged, non-deferred obligations),
+	// so that a change which breaks a callee's contract is reported by THIS property's thorough check too.
+	depSet := map[string]bool{}
+	if opts.Tier == "thorough" && opts.Prop != "" && opts.FuncFilter == "" && !opts.WriteBaseline {
+		for _, k := range calleeClosure(e, keys) {
+			depSet[k] = true
+			keys = append(keys, k)
+		}
+	}
 	out := &Outcome{}
 	var vcs []*vc.VC
 	var missing []string
@@ -211,7 +221,9 @@ func RunCheck(opts RunOpts, t0 time.Time) (*Outcome, error) {
 	var deferred []string
 	filter := func(o *vc.Obligation) bool {
 		if !(opts.Prop == "" || hasTag(o.Tags, opts.Prop)) {
-			return false
+			if !(depSet[o.Func] && len(o.Tags) > 0 && !o.ThoroughOnly) {
+				return false
+			}
 		}
 		if o.ThoroughOnly && opts.Tier != "thorough" {
 			deferred = append(deferred, o.Name)
@@ -314,7 +326,11 @@ func RunCheck(opts RunOpts, t0 time.Time) (*Outcome, error) {
 			continue
 		}
 		// failed or undecided
-		if ki := matchKnown(known.Findings, prop, o.Name); ki >= 0 {
+		kprop := prop
+		if depSet[o.Func] {
+			kprop = "" // an obligation of a callee verified here for completeness: known under whatever property lists it
+		}
+		if ki := matchKnown(known.Findings, kprop, o.Name); ki >= 0 {
 			usedKnown[ki] = true
 			knownLines = append(knownLines, fmt.Sprintf("KNOWN-FINDING: property=%s %s [%s: %s]", prop, known.Findings[ki].What, o.Name, r.Raw))
 			continue
@@ -456,6 +472,7 @@ func RunCheck(opts RunOpts, t0 time.Time) (*Outcome, error) {
 			"checker_cmd":                  fmt.Sprintf("bin/check %s %s (govc: go/ssa weakest-precondition generator over /repo; solvers z3 5.1.0, cvc5 1.0.x, z3 4.8.12)", prop, opts.Tier),
 			"trusted_base":                 trustedBase(assumed),
 			"functions_under_contract":     fuc,
+			"callee_closure_functions":     len(depSet),
 			"by_backend":                   byBackend,
 			"solver_time_s":                round3(solverTime),
 			"samples":                      samples,
